@@ -1222,8 +1222,8 @@ def gen_c10(rng, tier):
     fops, groups = [('C', w.cfg()), ('X',)], []
     s4, d4 = w.addrs(False)
     for kind in ('stun', 'rpc', 'smb1', 'smb2', 'ghost', 'ssh', 'http'):
-        req = gen.gen_stun_long(rng) if kind == 'stun' else gen.gen_app(rng, tcp=True, kinds=[kind])[2]
-        while kind != 'stun' and len(req) < 14:
+        req = gen.gen_stun_long(rng) if kind == 'stun' else gen.gen_rpc(rng, True) if kind == 'rpc' else gen.gen_app(rng, tcp=True, kinds=[kind])[2]
+        while kind not in ('stun', 'rpc') and len(req) < 14:
             req = gen.gen_app(rng, tcp=True, kinds=[kind])[2]
         plans = [[req]] + [[req[:c], req[c:]] for c in range(1, 10)] + [[req[i:i + 1] for i in range(8)] + [req[8:]]] + [[req[i:i + 1] for i in range(min(40, len(req) - 1))] + [req[min(40, len(req) - 1):]]]
         pidx = []
@@ -1407,6 +1407,13 @@ def gen_c18(rng, tier):
                           pre[:4] + x + pre[4:] + b'-x\r\n'):
                 ops.append(app_op(rng, w, ident, tcp=(b % 2 == 0)))
     cases.append(acase(w, ops, ['ssh-byte-sweep']))
+    # Gh0st requests whose compressed body starts with a zlib header of every compression level / window size (and with none)
+    ops = []
+    for zh in (b'\x78\x01', b'\x78\x5e', b'\x78\x9c', b'\x78\xda', b'\x78\x20', b'\x68\x05', b'\x58\x09', b'\x08\x1d', b'\x18\x19', b'\x00\x00', b'\xff\xff'):
+        for tail in (b'\x01\x01\x00\xfe\xff\x00\x00\x01\x00\x01', b'', rng.bytes(12)):
+            body = zh + tail
+            ops.append(app_op(rng, w, b'Gh0st' + struct.pack('<II', 13 + len(body), 1) + body, tcp=rng.chance(1, 2)))
+    cases.append(acase(w, ops, ['ghost-zlib-headers']))
     return cases
 
 
@@ -1426,6 +1433,17 @@ def gen_c17(rng, tier):
         p = h + struct.pack('<HHHHI', 36, len(ds), 1, 0, 0x7f) + rng.bytes(16) + rng.bytes(8) + b''.join(struct.pack('<H', d) for d in ds)
         ops.append(app_op(rng, w, gen.nbt(p), tcp=rng.chance(1, 2)))
     cases.append(acase(w, ops, ['smb2-dialect-lists']))
+    # SMB2 commands other than 0 / 1, incl. every value whose low byte is 0 or 1, in front of negotiate- and session-setup-shaped bodies
+    ops = []
+    for cmd in [2, 3, 5, 0x10, 0xff, 0x0100, 0x0101, 0x0200, 0x0201, 0x8000, 0x8001, 0xff00, 0xff01, 0xffff]:
+        for kind in (0, 1):
+            h = gen.smb2_header(rng, cmd, 0)
+            if kind == 0:
+                body = struct.pack('<HHHHI', 36, 2, 1, 0, 0x7f) + rng.bytes(16) + rng.bytes(8) + struct.pack('<HH', 0x0202, 0x0311)
+            else:
+                body = struct.pack('<HBBIIHHQ', 25, 0, 1, 0, 0, 0x58, 4, 0) + rng.bytes(4)
+            ops.append(app_op(rng, w, gen.nbt(h + body), tcp=rng.chance(1, 2)))
+    cases.append(acase(w, ops, ['smb2-other-commands']))
     return cases
 
 
